@@ -473,6 +473,31 @@ class SolveLoop:
     def loop_rw(self):
         return self.eff.of_region(list(self.header.ast.body), self.owner)
 
+    def relevant_attrs(self, seeds=("values", "policy", "iteration")) -> set[str]:
+        """Attributes that can influence what a run returns or decides: backward closure, over the statements of the loop
+        body (with the transitive effects of what they call, and through locals), from the result attributes `seeds`, from
+        everything a statement containing `break` / `return` / a save reads, and from the loop's own tests.  An attribute
+        that is carried from sweep to sweep but never flows into any of these (a timer, a counter kept for reporting) is
+        not part of the state a resumed run must reproduce."""
+        stmts = list(self.header.ast.body)
+        facts = []
+        for st in stmts:
+            R, W = self.eff.of_region([st], self.owner)
+            lr = {"local:" + n.id for n in ast.walk(st) if isinstance(n, ast.Name) and isinstance(n.ctx, ast.Load)}
+            lw = {"local:" + n.id for n in ast.walk(st) if isinstance(n, ast.Name) and isinstance(n.ctx, (ast.Store, ast.Del))}
+            decisive = any(isinstance(n, (ast.Break, ast.Return, ast.Continue, ast.Raise)) for n in ast.walk(st)) or any(
+                self_call_name(c) == "save" for c in calls_in(st))
+            facts.append((set(R) | lr, set(W) | lw, decisive))
+        rel = set(seeds)
+        changed = True
+        while changed:
+            changed = False
+            for R, W, decisive in facts:
+                if (decisive or (W & rel)) and not R <= rel:
+                    rel |= R
+                    changed = True
+        return {a for a in rel if not a.startswith("local:")}
+
     def breaks(self) -> list[Node]:
         return [
             self.cfg.nodes[i]
